@@ -2,16 +2,25 @@
 from pyvc.runner import Prop, Bounded, script_replay
 import contracts.guesser_core as gc
 import contracts.guesser_expand as ge
+import contracts.guesser_loader as gld
 
 M = gc.MOD + ':PcfgGrammar.'
 
 PROP = Prop(
     'C04', 'A pre-terminal expands to exactly the product of its terminal groups',
-    functions=[M + 'print_guess', M + '_recursive_guesses', M + 'omen_generate_guesses', M + 'create_guesses'],
-    lemmas=lambda: ge.catvals_split.lemmas(),
+    functions=[M + 'print_guess', M + '_recursive_guesses', M + 'omen_generate_guesses', M + 'create_guesses',
+               # 'all values that share a group have the same probability in the ruleset': the loader groups only equal probabilities
+               (gld.GIO + ':_load_from_file', gld.install_reader)],
+    lemmas=lambda: ge.catvals_split.lemmas() + gld.groups_desc.lemmas(),
     setup=ge.install,
     level='proof',
     replay=script_replay('replay/expand.py', default_fn='PcfgGrammar._recursive_guesses'),
+    bounded=[Bounded('C04.bounded.expand', 'replay/expand.py', args=['--fn', 'PcfgGrammar._recursive_guesses'],
+                     bound='random small rulesets (groups of 1-3 values, masks of any U/L pattern, adjacent alpha words, non-ASCII values), every pre-terminal',
+                     clause='cross-check on the real class: lines written == independent product enumeration, count == lines'),
+             Bounded('C04.bounded.loader_groups', 'replay/loader.py', args=['--fn', '_load_from_file'],
+                     bound='terminal files of 1-9 rows with equal / 1 ulp / 1e-12 / 4e-10 apart / halved probabilities',
+                     clause='cross-check: groups are the maximal runs of exactly equal probabilities')],
     assumptions=[
         'stdout can encode every ruleset value and its consumer keeps reading (the two except branches of print_guess)',
         "a Markov pre-terminal's strings are OmenSeq(grammar, level): contract of MarkovCracker assumed here, decided by C10",
@@ -20,7 +29,7 @@ PROP = Prop(
         "''.join is an uninterpreted function of the list it is given (the masked tail is specified per character: "
         "original character at L, str.upper() of it otherwise)",
         'all values that share a group share its probability by construction of the loaded data structure '
-        '(one prob per group record); that the loader groups only equal probabilities is C07/C14\'s loader contract',
+        '(one prob per group record); the loader groups only consecutive lines of exactly equal probability (_load_from_file under contract here)',
     ],
     explanation='_recursive_guesses writes exactly Expand(cur, pt) (every combination once, in structure order, masks applied '
                 'to the tail built so far) and returns the number of lines written; the Markov branch writes the strings '
